@@ -174,7 +174,7 @@ theorem found_of_holds {s : Store} (hr : running s = true) {g : Nat} {d : Doc} {
       { st1 with T := (loadSeg s.cfg.tpl s.fs g st1.T).2, segs := setCached st1.segs g true,
                  loads := st1.loads + (if (openAll s.fs g (comps s.cfg.tpl)).isSome then 1 else 0),
                  gh := { st1.gh with loadLost := st1.gh.loadLost || !(loadSeg s.cfg.tpl s.fs g st1.T).2.coversLive st1.T,
-                                     revived := st1.gh.revived || (loadSeg s.cfg.tpl s.fs g st1.T).2.livesAny st1.gh.removed } } := by
+                                     revived := st1.gh.revived || (loadSeg s.cfg.tpl s.fs g st1.T).2.livesAny st1.gh.gone } } := by
     simp only [segEvent, hflag, hok, if_true]
   rw [hload]
   simp only [segEvent, isCached_setCached_same _ _ _ _ hflag]
